@@ -909,7 +909,7 @@ func runBoundedC20(e *Engine, res *checkResult, work string) {
 	}
 	outFile := filepath.Join(work, "fuzz.json")
 	t0 := time.Now()
-	run := exec.Command(bin, "-maxlines", maxLines, "-testdata", filepath.Join(repoDir(), "testdata"), "-out", outFile)
+	run := exec.Command(bin, "-maxlines", maxLines, "-testdata", filepath.Join(repoDir(), "testdata"), "-corpus", filepath.Join(vdir, "repro", "C20"), "-out", outFile)
 	run.Env = env
 	run.CombinedOutput()
 	data, err := os.ReadFile(outFile)
@@ -966,7 +966,7 @@ func runBoundedC20(e *Engine, res *checkResult, work string) {
 	}
 	res.bounded = append(res.bounded, map[string]any{
 		"what":        "real ParseConfig/MergeSpoc/GetChanges of all five device types executed with panics recovered",
-		"bound":       "every DEVICE/NETSPOC/RAW text of go/testdata/*.t; per text the first " + maxLines + " lines mutated: word-prefix truncations, single-token deletion/duplication, adjacent swaps, double blanks, indentation change, line deletion/duplication; JSON/XML structural mutations (null, [], [null], member deletion, element deletion/duplication); empty and garbage files; both argument positions; netspoc text reused as raw file",
+		"bound":       "every DEVICE/NETSPOC/RAW text of go/testdata/*.t; per text the first " + maxLines + " lines mutated: word-prefix truncations, single-token deletion/duplication, adjacent swaps, double blanks, indentation change, line deletion/duplication; JSON/XML structural mutations (null, [], [null], member deletion, element deletion/duplication); empty and garbage files; both argument positions; netspoc text reused as raw file; plus every stored reproducer /verif/repro/C20/*.json (regression corpus of repaired defects and known findings)",
 		"cases":       fr.Cases,
 		"executions":  fr.Runs,
 		"panic_sites": sites,
